@@ -278,29 +278,32 @@ Theorem C07_package_load_total : forall walk b name,
 Proof. exact load_package_total. Qed.
 Print Assumptions C07_package_load_total.
 
-(* positions, full statement: every error of a package load is positioned inside a file of the bundle *)
+(* positions, full statement: every error of loading a package of the bundle is positioned inside a file of the
+   bundle.  PROVED since fix 3f76693 (before it: refuted, 'no files for package' and 'circular dependency detected'
+   came back without a position).  imports_located: the span recorded for an import statement joins two node end
+   points of the syntax tree of the file's text (the walker's position contract for the "imports" entries of the
+   location tree; evaluated on the real location trees by the CPkgLoad correspondence) *)
 Definition C07_package_errors_positioned_statement : Prop := package_errors_positioned_statement.
-(* refuted: an import of a package nobody provides, and an import cycle, come back WITHOUT a position
-   (recorded findings "no files for package" / "circular dependency detected") *)
-Theorem C07_package_errors_positioned_refuted : ~ C07_package_errors_positioned_statement.
-Proof. exact package_errors_positioned_refuted. Qed.
-Print Assumptions C07_package_errors_positioned_refuted.
-Theorem C07_unknown_package_unpositioned :
-  load_package (front_fres demo_walk) unknown_pkg_bundle 1%N = Ok [mkPE ENoFiles None None].
-Proof. exact unknown_package_unpositioned. Qed.
-Print Assumptions C07_unknown_package_unpositioned.
-Theorem C07_package_cycle_unpositioned :
-  load_package (front_fres demo_walk) cycle_bundle 1%N = Ok [mkPE EPkgCycle None None].
-Proof. exact package_cycle_unpositioned. Qed.
-Print Assumptions C07_package_cycle_unpositioned.
-(* partial: every error is positioned inside a file of the bundle OR is one of those two loader errors.
-   Missing for the full statement: positions for the two loader errors; the link step (not modelled: its
-   errors are positioned in the generated file or, for a file cycle, not at all — recorded findings) *)
-Theorem C07_package_errors_positioned_partial : forall walk b name es, walker_contract walk ->
-  load_package (front_fres walk) b name = Ok es ->
-  Forall (fun e => perr_inside b e \/ (pe_stage e = ENoFiles /\ pe_pos e = None) \/ (pe_stage e = EPkgCycle /\ pe_pos e = None)) es.
-Proof. exact load_errors_positioned_partial. Qed.
-Print Assumptions C07_package_errors_positioned_partial.
+Theorem C07_package_errors_positioned : C07_package_errors_positioned_statement.
+Proof. exact package_errors_positioned. Qed.
+Print Assumptions C07_package_errors_positioned.
+(* the two former refutation witnesses, now positioned: an import of a package nobody provides is reported at that
+   import statement; an import cycle at the import statement that closes it (file 20 of package 2) *)
+Theorem C07_unknown_package_positioned :
+  load_package (front_fres demo_walk) unknown_pkg_bundle 1%N = Ok [mkPE ENoFiles (Some 10%N) (Some fine_span)].
+Proof. exact unknown_package_positioned. Qed.
+Print Assumptions C07_unknown_package_positioned.
+Theorem C07_package_cycle_positioned :
+  load_package (front_fres demo_walk) cycle_bundle 1%N = Ok [mkPE EPkgCycle (Some 20%N) (Some fine_span)].
+Proof. exact package_cycle_positioned. Qed.
+Print Assumptions C07_package_cycle_positioned.
+(* non-vacuity of the hypotheses on those two bundles; and the one place the unpositioned form survives: compiling
+   a package that NO file of the bundle belongs to (there is no offending file) *)
+Example C07_example_package_hypotheses :
+  imports_located unknown_pkg_bundle /\ imports_located cycle_bundle
+  /\ load_package (front_fres demo_walk) unknown_pkg_bundle 2%N = Ok [mkPE ENoFiles None None].
+Proof. exact (conj (proj1 witnesses_located) (conj (proj2 witnesses_located) absent_package_unpositioned)). Qed.
+Print Assumptions C07_example_package_hypotheses.
 
 (* the positive side: the loader adds no error of its own.  Every import names a local package of the bundle, the
    import relation is acyclic (a rank), every file is converted by its front end: the package loads (empty error list).
